@@ -5,15 +5,21 @@ def grid(B, nsmax, extra):
     return [{"ns":ns,"nw":nw} for ns in range(0,nsmax+1) for nw in range(0,ns+extra+1)]
 H=[{"name":"H_witness","tiers":["quick","thorough"],"expect":"violation","bounds":"vacuity witness"}]
 Q=["quick","thorough"]; T=["thorough"]
+def cap(name, ps):
+    # every slicing of nw bytes = 2^(nw-1) paths times the content branching: beyond these lengths an instance exceeds its budget
+    lim = 11 if name=="H_error" else 7
+    return [p for p in ps if p["nw"]<=lim]
 for name in ("H_error","H_wound"):
     H.append({"name":name,"tiers":Q,"scale":"b2","bounds":"B=2; signed 0..2B+1; written 0..signed+B+1; all byte values; every slicing of the written bytes into Write calls","param_sets":grid(2,5,3)})
     H.append({"name":name,"tiers":Q,"scale":"b3","bounds":"B=3; signed 0..B+1; written 0..signed+2","param_sets":grid(3,4,2)})
-    H.append({"name":name,"tiers":T,"scale":"b2","bounds":"B=2; signed 6..3B+1; written 0..signed+B+1","max_seconds":900,"param_sets":[p for p in grid(2,7,3) if p["ns"]>5]})
-    H.append({"name":name,"tiers":T,"scale":"b3","bounds":"B=3; signed 5..2B+1; written 0..signed+B+1","max_seconds":900,"param_sets":[p for p in grid(3,7,4) if p["ns"]>4 or p["nw"]>p["ns"]+2]})
-    H.append({"name":name,"tiers":T,"scale":"b4","bounds":"B=4; signed 0..2B+1; written 0..signed+B+1","max_seconds":900,"param_sets":grid(4,9,5)})
+    H.append({"name":name,"tiers":T,"scale":"b2","bounds":"B=2; signed 6..3B+1; written 0..signed+B+1","max_seconds":900,"param_sets":cap(name,[p for p in grid(2,7,3) if p["ns"]>5])})
+    H.append({"name":name,"tiers":T,"scale":"b3","bounds":"B=3; signed 5..2B+1; written 0..signed+B+1","max_seconds":900,"param_sets":cap(name,[p for p in grid(3,7,4) if p["ns"]>4 or p["nw"]>p["ns"]+2])})
+    H.append({"name":name,"tiers":T,"scale":"b4","bounds":"B=4; signed 0..2B+1; written 0..signed+B+1","max_seconds":900,"param_sets":cap(name,grid(4,9,5))})
 H.append({"name":"H_error","tiers":Q,"scale":"b2","bounds":"B=2; signed 2..2B+1; written 0..signed+B+1; the writer is closed after the failing Write (as a deferred Close does): still nothing from the bad block on may reach the inner pool","param_sets":[dict(p,closeafter=1) for p in grid(2,5,3) if p["ns"]>=2]})
 H.append({"name":"H_interleave","tiers":Q,"scale":"b2","bounds":"B=2: two files (3 and 3, 2 and 4, 1 and 3 bytes) written byte by byte through two writers of one pool that are open at the same time, every interleaving; second file pristine or differing in its last byte",
   "param_sets":[{"n0":a,"n1":b,"bad":x} for (a,b) in ((3,3),(2,4),(1,3)) for x in (0,1)]})
+H.append({"name":"H_error_real","tiers":Q,"max_steps":2000000000,"bounds":"REGIME R (no constant scaled): signed 2 blocks + 100 bytes concrete; one symbolic written byte in block 0, 1 or the short block 2; writes of 32 KiB, 64 KiB+1 and 100000 bytes",
+  "param_sets":[{"blk":b,"chunk":c} for b in (0,1,2) for c in (32768,65537,100000)]})
 json.dump({"property":"C18","package":"c18","scale":scale,"harnesses":H,
  "stubs":["crypto/md5 -> injective model","os -> in-memory file system model (only used to sign the reference file)","inner pool = recording pool written in the harness"],
  "outside":["block size 64 KiB (declared value scaled to 2..4; uses are the real code)","files longer than 3B+1"]},open("config.json","w"),indent=1)
